@@ -28,7 +28,9 @@ func init() {
 // (HEAD, index, worktree) kinds per path, alphabet of C27 (t = type swap).
 var (
 	c28StatesA = []string{"---", "111", "112", "11-", "--1", "-11", "122", "1--", "11x", "11l", "11t", "-1-", "121"}
-	c28StatesB = []string{"---", "111", "112", "--1", "11-", "-11", "11t"}
+	// a trailing '+' adds the untracked d/u and the ignored d/z.ign; without it a
+	// directory d can become empty (empty-directory leftovers)
+	c28StatesB = []string{"---+", "111+", "112+", "--1+", "111", "11-", "11-+", "-11+", "11t", "---"}
 	c28OpNames = []string{"none", "Add(a)", "Add(d)", "Add(u)", "AddAll", "AddGlob(*)", "Remove(a)", "Remove(d)", "Move(a,m)", "Move(d/b,d/m)",
 		"Clean", "Clean(Dir)", "Commit"}
 )
@@ -87,7 +89,8 @@ func (e *c28Env) setup(v []int, root string) {
 	os.MkdirAll(filepath.Join(root, "e"), 0o755)
 	hPut(root, "u/v", '1', hOldTime)
 	hPut(root, "z.ign", '1', hOldTime)
-	if dIsDir {
+	hPut(root, "dx", '2', hOldTime) // a sibling whose name has "d" as a string prefix
+	if dIsDir && strings.HasSuffix(st[1], "+") {
 		hPut(root, "d/z.ign", '1', hOldTime)
 		hPut(root, "d/u", '2', hOldTime)
 	}
@@ -345,15 +348,15 @@ func (e *c28Env) run(v []int) (sig, class string) {
 func runC28(c *fw.Ctx) {
 	t := hBuildTemplate(c, "c28tmpl", []string{"a", "d/b"}, "-12xl")
 	e := &c28Env{c: c, t: t}
-	nA, nB := len(c28StatesA), c.Pick(4, len(c28StatesB))
+	nA, nB := len(c28StatesA), c.Pick(5, len(c28StatesB))
 	nOps := len(c28OpNames) - 1
 	depth := c.Pick(2, 3)
 	c.Bound("states_a", c28StatesA)
 	c.Bound("states_d/b", c28StatesB[:nB])
 	c.Bound("ops", c28OpNames[1:])
 	c.Bound("depth", depth)
-	c.Bound("extras", "always present: .gitignore (*.ign), z.ign, d/z.ign, d/u, u/v, empty dir e/")
-	c.SetRule("initial states = (HEAD,index,worktree) triples for a (13) x d/b (quick 4, thorough 7) built like C27 plus fixed untracked/ignored extras; all op sequences up to the depth over 12 operations, breadth first: a sequence is extended only if its prefix agreed; go-git runs the sequence on copy A, the equivalent git commands on copy B (AddGlob(*) = git add of the shell expansion; Remove = git rm -r -f; Clean = git clean -f [-d]; Commit with identical identity/date/message); compared after the last op: git ls-files -s of both, all remaining files, HEAD target, HEAD commit tree and parents, and for Commit tree == git write-tree of A's index; non-trivial = every executed sequence; distinct counts (per-op success pattern of both sides)")
+	c.Bound("extras", "always present: .gitignore (*.ign), z.ign, dx, u/v, empty dir e/; d/u and d/z.ign in the '+' states")
+	c.SetRule("initial states = (HEAD,index,worktree) triples for a (13) x d/b (quick 5, thorough 10; with/without untracked content inside d) built like C27 plus fixed untracked/ignored extras; all op sequences up to the depth over 12 operations, breadth first: a sequence is extended only if its prefix agreed; go-git runs the sequence on copy A, the equivalent git commands on copy B (AddGlob(*) = git add of the shell expansion; Remove = git rm -r -f; Clean = git clean -f [-d]; Commit with identical identity/date/message); compared after the last op: git ls-files -s of both, all remaining files, HEAD target, HEAD commit tree and parents, and for Commit tree == git write-tree of A's index; non-trivial = every executed sequence; distinct counts (per-op success pattern of both sides)")
 	c.Assume("git 2.39.5 commands listed in the rule are 'the equivalent git commands'; whether an op returned an error is not compared, only the resulting states")
 
 	if v := hDevVec(); v != nil {
